@@ -383,7 +383,7 @@ func genMaxShare(r *hx.Rng) int {
 
 // place a bound workload of `cpu` thousandths on free resources of n (mutates usage); nil if it does not fit
 func placeWorkload(r *hx.Rng, n *node, base int, cpu, mem int64) *workload {
-	pieces := int(cpu * int64(base) / 1000)
+	pieces := int(math.Round(cores(cpu) * float64(base))) // the scheduler's own conversion (after D3)
 	if pieces <= 0 {
 		return nil
 	}
